@@ -755,13 +755,15 @@ def variant_case(draw, shard, tier):
     labels = [d.pick(*SCALES) for _ in range(n)] if d.int(0, 2) else []
     ops = []
     for _ in range(d.int(3, 8)):
-        kind = d.pick("query", "query", "query", "node", "scribble", "clone")
+        kind = d.pick("query", "query", "query", "node", "scribble", "clone", "entry")
         if kind == "clone":
             ops.append(dict(op="clone", how=d.pick(*CLONES)))
         elif kind == "node":
             ops.append(dict(op="node", i=d.int(0, n - 1), label=d.pick(*SCALES)))
         elif kind == "scribble":
             ops.append(dict(op="scribble", how=d.pick("fill", "add", "base")))
+        elif kind == "entry":
+            ops.append(dict(op="entry", q=query(d, n), label=d.pick(*SCALES), tie=d.pick("none", "first", "last", "node")))
         else:
             ops.append(dict(op="query", q=query(d, n), label=d.pick(*SCALES) if d.coin() else "UTC"))
     ops.append(dict(op="query", q=query(d, n), label=d.pick(*SCALES)))
@@ -856,6 +858,32 @@ def check_variant(case):
                 raise Violation("result-aliased", f"step {step}: after the caller overwrote a result in place, the "
                                 f"same request gives {again.tolist()} instead of {saved.tolist()}")
             continue
+        if op["op"] == "entry":
+            # the other public ways to the same interpolation: the interpolator object itself, iter(dates=),
+            # ephem(dates=) - also exactly at the first / last / a middle point of the table
+            if op["tie"] == "none":
+                _, dsq = query_x(t, np.array([d_ + s_ / 86400.0 for d_, s_ in ds]), ds, op["q"])
+            else:
+                dsq = ds[{"first": 0, "last": n - 1, "node": (op["q"]["i"] + 1) % n}[op["tie"]]]
+            qdate = labelled_date(*dsq, op["label"])
+            if not (xs[0] <= qdate._mjd <= xs[-1]):
+                continue
+            cls.add("entry:" + op["tie"])
+            ref = vals_of(eph.interpolate(qdate))
+            raw = np.array(eph.interp(qdate), dtype=float)
+            it = [vals_of(o) for o in eph.iter(dates=[qdate, qdate])]
+            sub = eph.ephem(dates=[qdate])
+            sub_row = vals_of(sub[0])
+            for name_, val in (("Ephem.interp(date)", raw), ("iter(dates=)[0]", it[0]), ("iter(dates=)[1]", it[1]),
+                               ("ephem(dates=)[0]", sub_row)):
+                if not np.array_equal(val, ref):
+                    raise Violation("entry-point-differs", f"step {step}: {name_} at {qdate} gives {val.tolist()}, "
+                                    f"interpolate() gives {ref.tolist()}", entry=name_)
+            if sub[0].form.name != case["form"] or sub[0].frame.name != case["frame"] or sub[0].date._mjd != qdate._mjd:
+                raise Violation("entry-point-metadata", f"step {step}: ephem(dates=) point is {sub[0].frame.name}/"
+                                f"{sub[0].form.name} dated {sub[0].date}")
+            worst = max(worst, match_interpolant(xs, ys, method, k, qdate._mjd, ref, f"step {step} (entry points)"))
+            continue
         if op["op"] == "node":
             j = op["i"] % n
             qdate = labelled_date(*ds[j], op["label"])
@@ -912,7 +940,8 @@ def inplace_case(draw, shard, tier):
     n = d.int(order, order + 6)
     ops = []
     for _ in range(d.int(0, 3)):
-        ops.append(dict(op=d.pick("read", "read", "copy()", "ephem()", "dump", "interp", "copy.copy", "pickle")))
+        ops.append(dict(op=d.pick("read", "read", "copy()", "ephem()", "dump", "interp", "copy.copy", "pickle",
+                                  "share_new", "share_copy", "share_new_used")))
     for _ in range(d.int(1, 3)):
         ops.append(dict(op="set_form", form=d.pick(*CONV_FORMS)) if d.coin() else dict(op="set_frame", frame=d.pick(*CONV_FRAMES)))
         for _ in range(d.int(0, 2)):
@@ -943,6 +972,7 @@ def check_inplace(case):
     eph = Ephem(svs, method=method, order=k)
     xs = np.array([dt._mjd for dt in dates])
     form, frame = "cartesian", "EME2000"
+    other = None
     worst = 0.0
     seen = []
     converted = False
@@ -957,6 +987,11 @@ def check_inplace(case):
                  "pickle": lambda e: pickle.loads(pickle.dumps(e))}[kind](eph)
             if len(c) != n:
                 raise Violation("clone-length", f"step {step}: {kind} has {len(c)} points")
+        elif kind in ("share_new", "share_new_used", "share_copy"):
+            # a second ephemeris holding the SAME point objects (built from them, or a shallow copy)
+            other = copy.copy(eph) if kind == "share_copy" else Ephem(list(eph), method=method, order=k)
+            if kind == "share_new_used":
+                other.interpolate(dates[0])
         elif kind == "dump":
             ccsds.dumps(eph)
         elif kind == "set_form":
@@ -974,6 +1009,16 @@ def check_inplace(case):
                 qd = dates[op["i"]]
             else:
                 qd = dates[op["i"]] + __import__("datetime").timedelta(seconds=case["h"] * op["f"])
+            if other is not None:
+                ro = other.interpolate(qd)
+                go = vals_of(ro)
+                if ro.form.name != form or ro.frame.name != frame:
+                    raise Violation("metadata-frame-form", f"step {step}: the ephemeris sharing the points answers in "
+                                    f"{ro.frame.name}/{ro.form.name}, its points are in {frame}/{form}")
+                if kind == "node" and not np.array_equal(go, ys[op["i"]]):
+                    raise Violation("stale-table-shared", f"step {step}, after {' > '.join(seen)}: the ephemeris sharing the "
+                                    f"points returns {go.tolist()} at the date of point {op['i']}, which holds "
+                                    f"{ys[op['i']].tolist()}")
             res = eph.interpolate(qd)
             if res.form.name != form or res.frame.name != frame:
                 raise Violation("metadata-frame-form", f"step {step}: result in {res.frame.name}/{res.form.name}, the "
@@ -989,7 +1034,7 @@ def check_inplace(case):
                 # angles may wrap between neighbouring points: only the node clause and the linear chord apply
                 # to such tables; check the components that do not wrap (the first one: a, r or rho)
                 worst = max(worst, match_interpolant(xs, ys[:, :1], method, k, qd._mjd, got[:1], what))
-    return dict(nt=converted, cls=[method, "read-before-set" if any(o in seen[:seen.index("set_form") if "set_form" in seen else len(seen)]
+    return dict(nt=converted, cls=[method, *(["shared-points"] if other is not None else []), "read-before-set" if any(o in seen[:seen.index("set_form") if "set_form" in seen else len(seen)]
                                                                   for o in ("read", "copy()", "ephem()", "dump", "copy.copy", "pickle")) else "plain",
                                    "interp-before-set" if "interp" in seen[: min([seen.index(x) for x in ("set_form", "set_frame") if x in seen] or [0])] else "fresh"],
                 ratio=worst)
